@@ -732,6 +732,14 @@ func main() {
 		firstUseRound(outAbs, *firstUseChild)
 		return
 	}
+	// warm-up: the one-time generation of the type information of the whole zoo is not part of what
+	// a decode of a given input allocates (the allocation bound is per input); first uses under
+	// concurrency are the business of the first-use family (fresh processes)
+	for _, name := range typeNames {
+		p := reflect.New(catalogue[name])
+		codecutil.Try(func() { rlp.DecodeBytes([]byte{0xc0}, p.Interface()) })
+		codecutil.Try(func() { rlp.EncodeToBytes(reflect.New(catalogue[name]).Interface()) })
+	}
 	var cases []tcase
 	codecutil.ReadCases(*casesPath, &cases)
 	opsRng = vutil.Rng(88 + 1000**salt)
